@@ -1437,10 +1437,7 @@ func (m *Machine) Eval(source string, fn func(), ctx context.Context) bool {
 		canceled.Store(true)
 		m.log(LogOps, "[eval:timeout] %s", source)
 		err := fmt.Errorf("%w: eval:%s", ErrEvalTimeout, source)
-		select {
-		case m.errInternal <- err:
-		default:
-		}
+		m.errInternalSend(err)
 		return false
 
 	case <-m.ctx.Done():
@@ -1457,6 +1454,21 @@ func (m *Machine) Eval(source string, fn func(), ctx context.Context) bool {
 
 	m.log(LogEverything, "[eval:end] %s", source)
 	return true
+}
+
+// errInternalSend reports a timeout on [Machine.ErrInternal] without blocking.
+// The channel gets closed by doDispose, which can race with the timeout of a
+// pending call.
+func (m *Machine) errInternalSend(err error) {
+	defer func() {
+		// closed meanwhile
+		_ = recover()
+	}()
+
+	select {
+	case m.errInternal <- err:
+	default:
+	}
 }
 
 func (m *Machine) isNestedEval(source string) bool {
@@ -2413,10 +2425,7 @@ func (m *Machine) processHandlers(e *Event) (Result, bool) {
 			m.log(LogOps, "[cancel] (%s) by timeout", j(tx.TargetStates()))
 			m.log(LogDecisions, "[handler:timeout]: %s from %s", methodName, h.id)
 			err := fmt.Errorf("%w: %s from %s", ErrHandlerTimeout, methodName, h.id)
-			select {
-			case m.errInternal <- err:
-			default:
-			}
+			m.errInternalSend(err)
 			timeout = true
 
 			// wait for the handler to exit within HandlerDeadline
